@@ -67,7 +67,7 @@ class BlockReading:
         :rtype: Type[Block]
         """
         for b in self.__allowed_blocks:
-            if b.begins(blockdata):
+            if b.begins(blockdata, self.__storage):
                 return b
         return DefaultBlock
 
